@@ -8,6 +8,7 @@ import (
 	"hash/fnv"
 	"reflect"
 	"sort"
+	"strconv"
 	"strings"
 	"time"
 )
@@ -562,6 +563,10 @@ func xorderDocs(r *rng, n int, f func(cdoc)) {
 			}
 			if xo := r.pick(xorderValues); xo != "" {
 				s.m = append(s.m, jmem{"x-order", mustJV(xo)})
+			} else if r.chance(1, 3) {
+				// other spellings of the key (the encoder orders by the lower-case key only): whatever they hold, the order of the
+				// output must not depend on the order in which a map is walked
+				s.m = append(s.m, jmem{"X-Order", jNum(strconv.Itoa(r.intn(10)))}, jmem{"x-ORDER", jNum(strconv.Itoa(r.intn(10)))})
 			}
 			props.m = append(props.m, jmem{name, s})
 		}
